@@ -6,6 +6,8 @@ LEVEL_NOTE=("Trusted: the goavc VC generator, go/ssa v0.29.0, the SMT solvers, a
  "(/verif/models/*.spec; listed per run in the evidence). Integers are mathematical, execution is sequential, termination is not proved.")
 T="contract-based deductive verification: WP-style VC generation over go/ssa + SMT (z3, cvc5)"
 claimed={
+ "C01": dict(text="Necessary conditions only, for two mechanisms: NameScope.Unique/HashedUnique never return an identifier that is already in use and record it (whole-map postconditions, so two calls cannot collide; same hash gives the same name), and fixReservedGo never returns a Go keyword, predeclared identifier or imported package name. That every accepted design generates code that compiles (templates, type-correctness of emitted Go) cannot be stated as a contract and is not claimed.",
+             ref="§3 C01", technique=T),
  "C05": dict(text="Runtime half only: the default error encoder writes exactly one header and one body, the status is the one the response object reports, plain errors become a 500 fault, service errors map through the flag table, decoding-error constructors give 400/415 (lemmas over the table). Declared errors are generated code and are not covered.",
              ref="§3 C05", technique=T),
  "C06": dict(text="Design/runtime half only: requirement inheritance and override in MethodExpr.Finalize (NoSecurity clears, own requirements win, service then API requirements are copied element-wise by copyReqs), scope validation (a scheme validates exactly when every required scope is presented). The generated endpoint wrappers (any-requirement/all-schemes evaluation, credential extraction) are generated code and are not covered.",
